@@ -46,7 +46,12 @@ func init() { register("c19", c19) }
 
 var c19Base = time.Unix(1700000000, 0).UTC()
 
-func c19At(s int) time.Time { return c19Base.Add(time.Duration(s) * time.Second) }
+// c19TimeUnit is the wall-clock length of one unit of the layouts' integer time axis (file k is created at 10k).
+// One second by default; a phase may shrink it so that several files fall into the same wall-clock second (set
+// by c19RunPhase before its workers start, phases run one after the other).
+var c19TimeUnit = time.Second
+
+func c19At(s int) time.Time { return c19Base.Add(time.Duration(s) * c19TimeUnit) }
 
 // c19Hist are the parameters of one generating history.
 type c19Hist struct {
@@ -383,6 +388,8 @@ type c19Case struct {
 	// AfterFailed: the restore is the SECOND attempt into the same output path; the first one (no timestamp)
 	// failed on the same replica. What a failed attempt leaves behind must not change a later result.
 	AfterFailed bool `json:"after_failed_attempt,omitempty"`
+	// UnitMS: milliseconds per unit of the time axis when not 1000 (several files within one wall-clock second)
+	UnitMS int `json:"time_unit_ms,omitempty"`
 }
 
 func (c c19Case) TString() string {
@@ -873,6 +880,9 @@ func (w *c19Worker) eval(b *c19Built, removed int, latest bool, T int) (*c19Verd
 		present[i] = i != removed
 	}
 	cs := c19Case{Layout: b.L, Latest: latest, T: T, AfterFailed: w.afterFailed && !latest}
+	if c19TimeUnit != time.Second {
+		cs.UnitMS = int(c19TimeUnit / time.Millisecond)
+	}
 	if removed >= 0 {
 		cs.Removed = b.Files[removed].Rel
 	}
@@ -997,6 +1007,9 @@ func (w *c19Worker) eval(b *c19Built, removed int, latest bool, T int) (*c19Verd
 	if v.Kind != "" {
 		w.st.violations++
 		v.Sig = fmt.Sprintf("%s|removed=%s|%s|%s|rm=%s|T=%s", v.Kind, role, collide, b.L.String(), cs.Removed, cs.TString())
+		if cs.UnitMS > 0 {
+			v.Sig += fmt.Sprintf("|unit=%dms", cs.UnitMS)
+		}
 		vc := fmt.Sprintf("%s|removed=%s|%s|ltx=%s", v.Kind, role, collide, lt)
 		w.st.vioClasses[vc]++
 		if cur, ok := w.st.vioSample[vc]; !ok || len(v.Sig) < len(cur) {
@@ -1107,9 +1120,10 @@ type c19Unit struct { // one layout with its removal/timestamp product
 }
 
 type c19Phase struct {
-	Name  string
-	Desc  string
-	Units []c19Unit
+	Name   string
+	Desc   string
+	Units  []c19Unit
+	UnitMS int // 0 = 1000: milliseconds per unit of the time axis
 }
 
 type c19PhaseResult struct {
@@ -1216,6 +1230,12 @@ func c19Phases(thorough bool) []*c19Phase {
 	ps = append(ps, &c19Phase{Name: "arbitration-g2",
 		Desc:  "2 generations tx ((1),(1)) and ((2),(1,1)), every split and snapshot set incl. a generation without snapshot, combined with the LTX replica placed older than / interleaved with / newer than the v3 files; removal of none / every single v3 file; T in latest + exact mtime of every file + first-1 + last+1",
 		Units: c19Units(c19Hists("upd", 512, [][]int{{1}, {1}}, [][]int{{2}, {1, 1}}), []string{"older", "interleaved", "newer"}, true, "exact", "v3")})
+	// 2c. The same two-generation layouts with and without LTX files on a 10 ms time axis: all files of a layout are
+	// created within one or two wall-clock seconds (ordering decisions must not depend on a coarser clock).
+	ps = append(ps, &c19Phase{Name: "g2-subsecond", UnitMS: 10,
+		Desc:  "as arbitration-g2 plus the same histories without LTX files, 10 ms per time unit (files 100 ms apart); removal of none / every single v3 file; T in latest + exact mtime of every file + first-1 + last+1",
+		Units: append(c19Units(c19Hists("upd", 512, [][]int{{1}, {1}}, [][]int{{2}, {1, 1}}), []string{"interleaved", "newer"}, true, "exact", "v3"),
+			c19Units(c19Hists("upd", 512, [][]int{{1}, {1}}, [][]int{{2}, {1, 1}}), []string{""}, true, "exact", "v3")...)})
 	// 3. Three transactions / three indexes, reduced timestamps.
 	ps = append(ps, &c19Phase{Name: "g1-i3-tx3-reduced",
 		Desc:  "1 generation; tx per index in {(3),(1,3),(2,3),(1,1,1),(1,1,2),(1,2,3)}; mode upd; every split; every non-empty snapshot set; removal of none / every single file; T in latest + exact mtime of every file + first-1 + last+1",
@@ -1365,6 +1385,11 @@ func (w *c19Worker) runUnit(g *c19Gen, u c19Unit) error {
 
 func c19RunPhase(p *c19Phase, g *c19Gen, root string, rep *ev.Reporter, deadline time.Time, total *c19Stats) (c19PhaseResult, error) {
 	t0 := time.Now()
+	c19TimeUnit = time.Second
+	if p.UnitMS > 0 {
+		c19TimeUnit = time.Duration(p.UnitMS) * time.Millisecond
+	}
+	defer func() { c19TimeUnit = time.Second }()
 	nw := min(runtime.GOMAXPROCS(0), 8)
 	var next, done int64
 	var mu sync.Mutex
@@ -1636,6 +1661,9 @@ func c19Replay(path string) int {
 	err = w.withRemoved(bl, rm, func() error {
 		var err error
 		w.afterFailed = cs.AfterFailed
+		if cs.UnitMS > 0 {
+			c19TimeUnit = time.Duration(cs.UnitMS) * time.Millisecond
+		}
 		v, err = w.eval(bl, rm, cs.Latest, cs.T)
 		return err
 	})
